@@ -10,7 +10,8 @@ the empty string, `~` is Python `None`).  Lines:
                             <nattrs> {<attr> <funcId> <0 | 1 iface member> <wantsCaller 0|1>}}
       `exports[path] = obj` (class chain in `__mro__` order)                -> ok
   call <path> <iface|~> <member> <sig|~> <sender|~> <serial> <expectReply 0|1> <nargs>
-       <names> <outcome>
+       <names> <managedEnc> <outcome>            (<managedEnc> := <enc>: does building the
+                                                  GetManagedObjects reply for <path> raise)
       the next operation of the history                                   -> events
   resolve <k> <names> <resolution>
       the Deferred returned by operation k fires                          -> events
@@ -143,8 +144,9 @@ def value : String → P Result
     pure { ret := .seq (List.range n), encWrapped := w, encFlat := f }
   | _ => failure
 
-def mkEnv (nm : List (Str × Bool)) (r : Option Result) : Env Nat :=
-  { encErr := fun _ body =>
+def mkEnv (nm : List (Str × Bool)) (r : Option Result) (managed : Option Exc := none) : Env Nat :=
+  { managedErr := fun _ => managed
+    encErr := fun _ body =>
       match r with
       | none => none
       | some r =>
@@ -197,16 +199,17 @@ def parseCall : P (Env Nat × Op Nat) := do
   let er ← bool
   let nargs ← nat
   let nm ← names
+  let me ← enc
   let kind ← tok
   let c : Call Nat := { path, iface := ifc, member, sig, sender, serial, expectReply := er,
                         body := List.range nargs }
-  if kind == "D" then pure (mkEnv nm none, .call c fun _ => .deferred)
+  if kind == "D" then pure (mkEnv nm none me, .call c fun _ => .deferred)
   else if kind == "R" then do
     let e ← exc
-    pure (mkEnv nm none, .call c fun _ => .raise e)
+    pure (mkEnv nm none me, .call c fun _ => .raise e)
   else do
     let r ← value kind
-    pure (mkEnv nm (some r), .call c fun _ => .value r.ret)
+    pure (mkEnv nm (some r) me, .call c fun _ => .value r.ret)
 
 def parseResolve : P (Env Nat × Op Nat) := do
   let k ← nat
